@@ -135,7 +135,8 @@ def catalogue_c08(tier):
           qcase('abort-inside-task', [[P(11), P(12)], [P(21)]], aborting=[11]),
           qcase('post-inside-task', [[P(11), P(12)]], posting=[11]),
           qcase('2clients-vs-abort', [[P(11), P(12)], [P(21)], [AB]]),
-          qcase('default-scheduler', [[P(11), P(12)], [P(21)]], kind='default_queue')]
+          qcase('default-scheduler', [[P(11), P(12)], [P(21)]], kind='default_queue'),
+          qcase('1client-burst6', [[P(11), P(12), P(13), P(14), P(15), P(16)]])]
     if tier == 'thorough':
         cs += [qcase('3clients', [[P(11), P(12)], [P(21), P(22)], [P(31)]]),
                qcase('2aborters', [[P(11), P(12)], [AB], [AB]]),
@@ -173,6 +174,9 @@ def catalogue_c09(tier):
         if nm in ('direct', 'stacked') or tier == 'thorough':
             cs.append(case('c09/observe_on-%s/silent' % nm, root, [items(1, 2)], tags=['observe_on']))
             cs.append(case('c09/observe_on-%s/unsub' % nm, root, [items(1, 3), [UNSUB1]], tags=['observe_on']))
+    # the emitter runs far ahead of the worker: a burst of 6 items and the terminal
+    cs.append(case('c09/observe_on-direct/burst6-complete', oo(S(1)), [items(1, 6) + [E(1, 'c')]], tags=['observe_on']))
+    cs.append(case('c09/observe_on-stacked/burst6-error', oo(oo(S(1))), [items(1, 6) + [E(1, 'e', 5)]], tags=['observe_on']))
     # a source that stays silent for a long (virtual) time between two events, and the same observable subscribed twice
     cs.append(case('c09/observe_on-direct/long-gap', oo(S(1)), [[E(1, 'n', 11), SL(2500), E(1, 'n', 12), SL(4000), E(1, 'c')]], tags=['observe_on']))
     cold3 = oo(T('from_iter', items=[1, 2, 3]))
@@ -247,6 +251,11 @@ def catalogue_c15(tier):
           timed(case('c15/observe_on-idle-unsub', T('observe_on', ins=[S(1)]), [[E(1, 'n', 11), SL(50), UNSUB1, SL(300)]], tags=W), 100),
           timed(case('c15/subscribe_on-cold', T('subscribe_on', ins=[T('from_iter', items=[1, 2, 3])]), [[SL(100)]], tags=W), 100),
           timed(case('c15/subscribe_on-never-unsub', T('subscribe_on', ins=[T('never')]), [[SL(10), UNSUB1, SL(300)]], tags=W), 100),
+          timed(case('c15/subscribe_on-never-unsub-at-once', T('subscribe_on', ins=[T('never')]), [[UNSUB1, SL(300)]], tags=W), 100),
+          timed(case('c15/subscribe_on-silent-subject-take1-of-prefix', T('take', 1, ins=[T('start_with', items=[8], ins=[T('subscribe_on', ins=[S(1)])])]), [[SL(300)]], tags=W), 100),
+          timed(case('c15/timer-unsub-at-once', T('timer', 100, b=7), [[UNSUB1, SL(400)]], tags=W), 100),
+          timed(case('c15/interval-unsub-at-once', iv(100), [[UNSUB1, SL(400)]], tags=W), 100),
+          timed(case('c15/observe_on-unsub-at-once', T('observe_on', ins=[S(1)]), [[UNSUB1, SL(300)]], tags=W), 100),
           timed(case('c15/debounce-complete', T('debounce', 100, ins=[S(1)]), [[E(1, 'n', 11), SL(150), E(1, 'c'), SL(400)]], tags=W), 100),
           timed(case('c15/debounce-unsub', T('debounce', 100, ins=[S(1)]), [[E(1, 'n', 11), SL(150), UNSUB1, SL(400)]], tags=W), 100),
           timed(case('c15/timeout-complete', T('timeout', 100, ins=[S(1)]), [[E(1, 'n', 11), SL(20), E(1, 'c'), SL(500)]], tags=W), 100),
@@ -274,6 +283,8 @@ def catalogue_c16(tier):
                timed(case('c16/timeout-%d-gap-after-first' % d, T('timeout', d, ins=[S(1)]), [[E(1, 'n', 11), SL(260), E(1, 'n', 12)]], tags=['timeout']), d),
                timed(dict(case('c16/timeout-%d-slow-consumer' % d, T('timeout', 4 * d, ins=[S(1)]), [[E(1, 'n', 11), SL(150), E(1, 'n', 12), E(1, 'c'), SL(3000)]], tags=['timeout-slow']), slow_item=12, slow_ms=8 * d), 4 * d),
                timed(case('c16/debounce-%d' % d, T('debounce', d, ins=[S(1)]), [[E(1, 'n', 11), SL(40), E(1, 'n', 12), SL(260), E(1, 'n', 13), SL(110), E(1, 'c'), SL(300)]], tags=['subset']), d),
+               timed(dict(case('c16/debounce-%d-complete-while-pending-slow-consumer' % d, T('debounce', d, ins=[S(1)]), [[E(1, 'n', 11), SL(d + 20), E(1, 'n', 12), E(1, 'c'), SL(8 * d)]], tags=['subset']), slow_item=12, slow_ms=3 * d), d),
+               timed(dict(case('c16/debounce-%d-slow-consumer' % d, T('debounce', d, ins=[S(1)]), [[E(1, 'n', 11), SL(d + 20), E(1, 'n', 12), SL(d + 20), E(1, 'n', 13), E(1, 'c'), SL(8 * d)]], tags=['subset']), slow_item=11, slow_ms=3 * d), d),
                timed(case('c16/sample-%d' % d, T('sample', ins=[S(1), S(2)]), [[E(1, 'n', 11), SL(40), E(1, 'n', 12), SL(90), E(1, 'n', 13), SL(110), E(1, 'c')], [SL(90), E(2, 'n', 0), SL(110), E(2, 'n', 0), SL(40), E(2, 'n', 0)]], tags=['subset']), d)]
     return cs
 
@@ -301,6 +312,15 @@ def catalogue_c07(tier):
            'sample': T('sample', ins=[S(1), S(2)]), 'retry': T('retry', 2, ins=[T('merge', ins=[S(1), S(2)])]), 'switch': T('switch_on_next', ins=[S(1), S(2)])}
     for nm, root in ops.items():
         cs.append(case('c07/4threads/%s' % nm, root, [items(1, 2) + [E(1, 'c')], items(2, 1) + [E(2, 'e', 5)], [SUB2], [{'op': 'unsub', 'u': 1}]]))
+    # ref_count / replay over a SYNCHRONOUS source: the first subscription (which runs the source) on one thread, the last subscriber
+    # taken away through take_until's trigger on another
+    for kind in ['ref_count', 'replay']:
+        c = case('c07/%s-sync-source/last-leaver-on-other-thread' % kind, T('take_until', ins=[T('conn', 1), S(2)]), [[{'op': 'sub', 'u': 1}], [E(2, 'n', 0)]], pre=[])
+        c['conn'] = [{'kind': kind, 'term': T('from_iter', items=[1, 2, 3, 4])}]
+        cs.append(c)
+        c = case('c07/%s-sync-source/two-subscribing-threads' % kind, T('take', 2, ins=[T('conn', 1)]), [[{'op': 'sub', 'u': 1}], [SUB2], [E(2, 'n', 0)]], pre=[])
+        c['conn'] = [{'kind': kind, 'term': T('from_iter', items=[1, 2, 3, 4])}]
+        cs.append(c)
     # connectables and subjects: subscribers coming and going while the source emits
     for kind in ['plain', 'behavior', 'replay', 'async']:
         cs.append(case('c07/subject-%s/sub-unsub-next-complete' % kind, S(1), [items(1, 2), [SUB2, U2], [{'op': 'unsub', 'u': 1}], [E(1, 'c')]], sbj=[kind]))
@@ -641,7 +661,25 @@ def sink_drift(work, harness, seed, runs=40, corrupt=None, tagp='sd'):
 
 def load_known():
     p = V + '/known_findings.json'
-    return [k for k in json.load(open(p)).get('findings', []) if 'match' in k] if os.path.exists(p) else []
+    if not os.path.exists(p):
+        return []
+    out = []
+    for k in json.load(open(p)).get('findings', []):
+        if 'match' in k:
+            out.append(k)
+        for extra in k.get('match_also', []):      # the same defect reached through another kind of history
+            out.append(dict(k, match=extra))
+    return out
+
+
+def sig_self_deadlock(lines, site):
+    """some thread is blocked forever on a lock created in `site` that it holds itself (same-thread re-entrancy, not a lock-order cycle)"""
+    q = json.loads(lines[-1])
+    for b in q.get('blocked', []):
+        m = re.match(r't(\d+): blocked [RW] on lock#\d+ \[([^\]]*)\] held by w=Some\((\d+)\)', b)
+        if m and m.group(1) == m.group(3) and site in m.group(2):
+            return True
+    return False
 
 
 def sig_zip_reorder(lines):
@@ -667,6 +705,8 @@ def sig_zip_reorder(lines):
 def kf_match(kf, prop, flag, name, fin, lines=None):
     m = kf['match']
     if m.get('signature') == 'zip_reorder' and not (lines and sig_zip_reorder(lines)):
+        return False
+    if m.get('signature') == 'self_deadlock' and not (lines and sig_self_deadlock(lines, m.get('site', ''))):
         return False
     if kf['property'] != prop or m.get('kind') != 'conc':
         return False
